@@ -34,6 +34,9 @@ var solvers = []solverSpec{
 	{"cvc5-1.0", "cvc5", func(ms int, f string) []string {
 		return []string{fmt.Sprintf("--tlimit=%d", ms), "--lang=smt2", f}
 	}},
+	{"cvc5-1.0/e-matching", "cvc5", func(ms int, f string) []string {
+		return []string{fmt.Sprintf("--tlimit=%d", ms), "--lang=smt2", "--no-cbqi", f}
+	}},
 }
 
 var queryCounter int64
@@ -75,24 +78,24 @@ func runOne(ctx context.Context, s solverSpec, file string, timeout time.Duratio
 // getVals are symbols whose values are requested when sat.
 func solve(script string, getVals []string, timeout time.Duration, needAgree int) SolveResult {
 	id := atomic.AddInt64(&queryCounter, 1)
-	var b strings.Builder
-	b.WriteString("(set-option :produce-models true)\n(set-logic ALL)\n")
-	b.WriteString(script)
-	b.WriteString("(check-sat)\n")
-	if len(getVals) > 0 {
-		// one get-value per symbol so that a failure on one does not lose the others
-		for _, v := range getVals {
-			fmt.Fprintf(&b, "(get-value (%s))\n", v)
-		}
-	}
+	// proof attempts run without model production (it slows the quantifier engines down considerably);
+	// a model is fetched by a second query only after some solver has answered sat
+	proof := "(set-logic ALL)\n" + script + "(check-sat)\n"
 	file := filepath.Join(queryDir(), fmt.Sprintf("q%d.smt2", id))
-	os.WriteFile(file, []byte(b.String()), 0o644)
+	os.WriteFile(file, []byte(proof), 0o644)
 	defer func() {
 		if os.Getenv("GOVC_KEEP") == "" {
 			os.Remove(file)
 		}
 	}()
 	start := time.Now()
+	finish := func(res SolveResult) SolveResult {
+		if res.Verdict == "sat" && len(getVals) > 0 {
+			res.Model = fetchModel(script, getVals, id, timeout)
+		}
+		res.Seconds = time.Since(start).Seconds()
+		return res
+	}
 	// stage 1: fast single solver
 	if needAgree <= 1 {
 		quick := 3 * time.Second
@@ -101,7 +104,7 @@ func solve(script string, getVals []string, timeout time.Duration, needAgree int
 		}
 		v, out := runOne(context.Background(), solvers[0], file, quick)
 		if v != "unknown" {
-			return SolveResult{Verdict: v, Solver: solvers[0].name, Seconds: time.Since(start).Seconds(), Model: parseModel(out), Output: trimOut(out), Agree: 1}
+			return finish(SolveResult{Verdict: v, Solver: solvers[0].name, Output: trimOut(out), Agree: 1})
 		}
 	}
 	// stage 2: race
@@ -131,10 +134,8 @@ func solve(script string, getVals []string, timeout time.Duration, needAgree int
 		if res.Verdict == "unknown" {
 			res.Verdict = a.v
 			res.Solver = a.solver
-			res.Model = parseModel(a.out)
 			res.Output = trimOut(a.out)
 		} else if res.Verdict != a.v {
-			// disagreement between solvers: report as unknown, loudly
 			res.Verdict = "unknown"
 			res.Output = "SOLVER DISAGREEMENT: " + strings.Join(lastOut, " | ")
 			res.Seconds = time.Since(start).Seconds()
@@ -145,13 +146,35 @@ func solve(script string, getVals []string, timeout time.Duration, needAgree int
 		}
 	}
 	res.Agree = counts[res.Verdict]
-	res.Seconds = time.Since(start).Seconds()
 	if res.Verdict == "unknown" {
 		res.Output = strings.Join(lastOut, " | ")
-	} else if needAgree > 1 && res.Agree < needAgree && res.Verdict == "unsat" {
-		// not enough agreement: still a discharge, recorded with its agreement count
 	}
-	return res
+	return finish(res)
+}
+
+// fetchModel re-runs a satisfiable query with model production and reads the requested values.
+func fetchModel(script string, getVals []string, id int64, timeout time.Duration) map[string]string {
+	var b strings.Builder
+	b.WriteString("(set-option :produce-models true)\n(set-logic ALL)\n")
+	b.WriteString(script)
+	b.WriteString("(check-sat)\n")
+	for _, v := range getVals {
+		fmt.Fprintf(&b, "(get-value (%s))\n", v)
+	}
+	file := filepath.Join(queryDir(), fmt.Sprintf("q%d.model.smt2", id))
+	os.WriteFile(file, []byte(b.String()), 0o644)
+	defer func() {
+		if os.Getenv("GOVC_KEEP") == "" {
+			os.Remove(file)
+		}
+	}()
+	for _, s := range []solverSpec{solvers[1], solvers[0]} {
+		v, out := runOne(context.Background(), s, file, timeout)
+		if v == "sat" {
+			return parseModel(out)
+		}
+	}
+	return map[string]string{}
 }
 
 func trimOut(s string) string {
